@@ -35,6 +35,22 @@ example : disassembleSourceID (assembleSourceID 123456789#64 123#32) = (12345678
     (by decide) (by decide) (by decide) (by decide)
   exact ⟨this.1, this.2.1, this.2.2.1⟩
 
+/-- **source IDs are collision-free**: within the layout's range two (topic index, partition) pairs
+    with the same source ID are the same pair — two partitions never share a pipeline source
+    (and so never share streams, offsets or commit heads). Corollary of the round trip. -/
+theorem sourceID_injective (i1 i2 : BitVec 64) (p1 p2 : BitVec 32)
+    (hi1 : i1.toNat < 2 ^ 48) (hp1 : p1.toNat < 2 ^ 16) (hi2 : i2.toNat < 2 ^ 48) (hp2 : p2.toNat < 2 ^ 16)
+    (h : assembleSourceID i1 p1 = assembleSourceID i2 p2) : i1 = i2 ∧ p1 = p2 := by
+  have h1 := LemmasKafkaPack.sourceID_roundtrip i1 p1 hi1 hp1
+  have h2 := LemmasKafkaPack.sourceID_roundtrip i2 p2 hi2 hp2
+  rw [h, h2] at h1
+  exact ⟨(Prod.mk.inj h1).1.symm, (Prod.mk.inj h1).2.symm⟩
+
+example : assembleSourceID 1#64 0#32 ≠ assembleSourceID 0#64 1#32 := by
+  intro h
+  have := sourceID_injective 1#64 0#64 0#32 1#32 (by decide) (by decide) (by decide) (by decide) h
+  exact absurd this.1 (by decide)
+
 /-! ### the acknowledgement path -/
 
 /-- **Every mark is an acknowledged record's own**, for every processor count, every assignment of
